@@ -210,14 +210,15 @@ class Node(ModelElement):
         # check properties
         req_props = NodeSliver.NodeConstraints[nstype].required_properties
         forb_props = NodeSliver.NodeConstraints[nstype].forbidden_properties
-        _, node_properties = self.topo.graph_model.get_node_properties(node_id=self.node_id)
-        node_sliver = self.topo.graph_model.node_sliver_from_graph_properties_dict(node_properties)
+        # need the deep sliver: a shallow one never shows attached components
+        node_sliver = self.get_sliver()
         for rp in req_props:
             if not node_sliver.property_exists(rp) or \
                     (node_sliver.property_exists(rp) and not node_sliver.get_property(rp)):
                 raise TopologyException(f"Node of type {nstype} must have property {rp} set")
         for fp in forb_props:
-            if node_sliver.property_exists(fp) and node_sliver.get_property(fp):
+            # not every constrained field has a getter (attached_components_info does not)
+            if getattr(node_sliver, fp, None):
                 raise TopologyException(f"Node of type {nstype} must NOT have property {fp} set")
 
     def get_sliver(self) -> NodeSliver:
